@@ -7,6 +7,9 @@ DIR="$(cd "$(dirname "$0")/.." && pwd)"
 cd "$WT" || exit 2
 DEMO=$(python3 -c "import json;print(json.load(open('meta.json')).get('demo_cmd',''))")
 echo "demo_cmd: $DEMO"
+# 0. make the tree exactly HEAD + patch.diff (agents share refs/stash between worktrees and have swapped changes by accident)
+git checkout -q -- . 2>/dev/null
+if ! git apply patch.diff 2>/dev/null; then echo "FAIL: patch.diff does not apply to a clean HEAD"; exit 1; fi
 # 1. patch matches tree
 git diff -- src Cargo.toml example.cfg > ${WT_ROOT:-/tmp/wt}/$ID.actual.diff
 if ! git apply --check -R patch.diff 2>/dev/null; then echo "FAIL: patch.diff does not reverse-apply to the working tree"; exit 1; fi
